@@ -3,6 +3,7 @@
      e cl C connect | submit ID PROG ASG | request ID ORDER | cancel ID | disconnect ORDER
      e up W ASG | e down W | e step W  -> "ok FLAGS LABELS STATE"  or "none" (event not enabled / handler raises)
    FLAGS = [overtaken(before) quiescent clean no_orphans] as 0/1.
+     route root|mgr below|above N      -> where a node with N employees sends a CANCEL (coq/rt/CancelTree.v route_cancel)
    instr: [s p] [m p1 ...] [a f] [n f] [c f];  ASG = [[w [i ...]] ...] *)
 open Common
 open Cancel_model
@@ -97,6 +98,9 @@ let handle line = match parse line with
        | None -> "none"
        | Some (s, labs) -> st := s;
            "ok " ^ show (flags ov s) ^ " " ^ show (L (List.map vlabel labs)) ^ " " ^ show (vsys s))
+  | [A "route"; A kind; A dir; I n] ->
+      let ls = route_cancel (kind = "root") (dir = "above") (nat_of_int n) in
+      show (L (List.map (function LUp -> A "up" | LDown k -> vi k) ls))
   | _ -> "BADCMD"
 
 let () =
